@@ -42,20 +42,25 @@ Mro(sh, c) ==
 \* ---- Parameter types ----------------------------------------------------------------
 SubType(a, b) ==    \* issubclass(a, b)
   a = b \/ b = "Parameter" \/ (a = "Integer" /\ b = "Number")
-HasSlot(ty, slot) == slot # "bounds" \/ ty \in {"Number", "Integer"}
+HasSlot(ty, slot) == slot \notin {"bounds", "incl"} \/ ty \in {"Number", "Integer"}
 TypeDefault(ty, slot) ==
   CASE slot = "default" -> (CASE ty = "Parameter" -> "None" [] ty = "Number" -> "0.0" [] ty = "Integer" -> "0" [] ty = "String" -> "")
     [] slot = "bounds" -> "None"
+    [] slot = "incl" -> "ii"
     [] slot = "doc" -> "None"
     [] slot = "constant" -> "F"
 Num2(v) == CASE v = "0" -> 0 [] v = "0.0" -> 0 [] v = "1" -> 2 [] v = "5" -> 10 [] v = "1.5" -> 3
 IsNumTok(v) == v \in {"0", "0.0", "1", "5", "1.5"}
-InBounds(v, b) == CASE b = "None" -> TRUE [] b = "b02" -> Num2(v) >= 0 /\ Num2(v) <= 4 [] b = "b46" -> Num2(v) >= 8 /\ Num2(v) <= 12
+\* incl: "ii" both bounds inclusive (the default), "xx" both exclusive
+InBounds(v, b, incl) ==
+  CASE b = "None" -> TRUE
+    [] b = "b02" -> IF incl = "ii" THEN Num2(v) >= 0 /\ Num2(v) <= 4 ELSE Num2(v) > 0 /\ Num2(v) < 4
+    [] b = "b46" -> IF incl = "ii" THEN Num2(v) >= 8 /\ Num2(v) <= 12 ELSE Num2(v) > 8 /\ Num2(v) < 12
 \* does a non-None value satisfy type ty with bounds b?
-ValidVal(ty, v, b) ==
+ValidVal(ty, v, b, incl) ==
   CASE ty = "Parameter" -> TRUE
-    [] ty = "Number" -> IsNumTok(v) /\ InBounds(v, b)
-    [] ty = "Integer" -> v \in {"0", "1", "5"} /\ InBounds(v, b)
+    [] ty = "Number" -> IsNumTok(v) /\ InBounds(v, b, incl)
+    [] ty = "Integer" -> v \in {"0", "1", "5"} /\ InBounds(v, b, incl)
     [] ty = "String" -> v \in {"s", ""}
 
 \* the constructor of a declaration validates its own (or the type's) default against its own bounds
@@ -65,8 +70,9 @@ OwnAN(d) == IF d.default = "None" \/ (d.default = "U" /\ TypeDefault(d.ty, "defa
 Constructible(d) ==
   LET v == IF d.default = "U" THEN TypeDefault(d.ty, "default") ELSE d.default
       b == IF HasSlot(d.ty, "bounds") /\ d.bounds # "U" THEN d.bounds ELSE "None"
+      ic == IF HasSlot(d.ty, "incl") /\ d.incl # "U" THEN d.incl ELSE "ii"
   IN IF v = "None" THEN TRUE     \* (allow_None becomes True automatically, or the type default is None)
-     ELSE ValidVal(d.ty, v, b)
+     ELSE ValidVal(d.ty, v, b, ic)
 
 \* ---- state: one hierarchy with its declarations ----------------------------------------
 VARIABLES shape, decl
@@ -105,19 +111,20 @@ Res(c, slot) ==
      ELSE TypeDefault(d.ty, slot)
 
 Bounds(c) == IF HasSlot(decl[c].ty, "bounds") THEN Res(c, "bounds") ELSE "None"
+Incl(c) == IF HasSlot(decl[c].ty, "incl") THEN Res(c, "incl") ELSE "ii"
 TypeChange(c) == \E i \in 1..Len(Holders(c)) : ~SubType(decl[Holders(c)[i]].ty, decl[c].ty)
 
 \* C11: creation of class c must fail exactly when ...
 Fails(c) ==
   LET v == Res(c, "default") IN
   IF v = "None" THEN TypeChange(c) /\ Res(c, "an") = "F" /\ decl[c].ty # "Parameter"
-  ELSE ~ValidVal(decl[c].ty, v, Bounds(c))
+  ELSE ~ValidVal(decl[c].ty, v, Bounds(c), Incl(c))
 
 \* when the implementation re-validates the merged default: the Parameter type changed, or a
 \* validated attribute (default, bounds, allow_None, instantiate...) was specified by this class
 \* with a value different from the one the nearest holder has, and the default is not None
 Overridden(c) ==
-  \E slot \in {"default", "bounds"} :
+  \E slot \in {"default", "bounds", "incl"} :
      LET hs == SelectSeq(Holders(c), LAMBDA a : HasSlot(decl[a].ty, slot)) IN
      HasSlot(decl[c].ty, slot) /\ decl[c][slot] # "U" /\ hs # <<>> /\ Res(hs[1], slot) # decl[c][slot]
 AsBuiltValidates(c) == TypeChange(c) \/ (Overridden(c) /\ Res(c, "default") # "None")
@@ -136,7 +143,7 @@ RevalidationSufficient ==
 \* no class exists whose non-None default contradicts its own bounds or type
 NoContradiction ==
   \A c \in ClsSet(shape) : (Declares(c) /\ Exists(c) /\ Created(c) /\ Res(c, "default") # "None")
-        => ValidVal(decl[c].ty, Res(c, "default"), Bounds(c))
+        => ValidVal(decl[c].ty, Res(c, "default"), Bounds(c), Incl(c))
 \* instantiate is monotone along the MRO
 InstantiateInherited ==
   \A c \in ClsSet(shape) : Declares(c) =>
@@ -147,7 +154,7 @@ Expect(c) ==
   ELSE IF ~Exists(c) THEN [declares |-> TRUE, exists |-> FALSE]
   ELSE IF Fails(c) THEN [declares |-> TRUE, exists |-> TRUE, fails |-> TRUE]
   ELSE [declares |-> TRUE, exists |-> TRUE, fails |-> FALSE, ty |-> decl[c].ty,
-        default |-> Res(c, "default"), bounds |-> Bounds(c), doc |-> Res(c, "doc"),
+        default |-> Res(c, "default"), bounds |-> Bounds(c), incl |-> Incl(c), doc |-> Res(c, "doc"),
         constant |-> Res(c, "constant"), an |-> Res(c, "an"), inst |-> Res(c, "inst")]
 
 Emit == RecordHist =>
